@@ -20,13 +20,13 @@ func manifestCmd() {
 	for _, id := range ids {
 		rs := registry[id]
 		checks = append(checks, map[string]interface{}{
-			"property_id":   id,
-			"quick_cmd":     "bin/jqcheck " + id + " --tier quick",
-			"thorough_cmd":  "bin/jqcheck " + id + " --tier thorough",
-			"evidence_file": "/verif/evidence/" + id + ".json",
+			"property_id":         id,
+			"quick_cmd":           "bin/jqcheck " + id + " --tier quick",
+			"thorough_cmd":        "bin/jqcheck " + id + " --tier thorough",
+			"evidence_file":       "/verif/evidence/" + id + ".json",
 			"replay_cmd_template": "bin/jqcheck explain {path}",
-			"engine":        "jqcheck",
-			"technique":     "repo-specific static analysis of the type-checked program (go/ssa edge facts, error-kind inference, typestate, decision-table extraction as normalised dataflow, call graph)",
+			"engine":              "jqcheck",
+			"technique":           "repo-specific static analysis of the type-checked program (go/ssa edge facts, error-kind inference, typestate, decision-table extraction as normalised dataflow, call graph)",
 			"level_claimed": map[string]string{
 				"category":   "other",
 				"text":       "Static analysis: named structural clauses decided on all paths of the interpreter's own code, for every jqawk program at once. Decided: " + rs.decided,
